@@ -61,6 +61,13 @@ impl Probe {
         v
     }
 
+    /// takes NO argument: records the call and returns nothing
+    pub fn ping(env: Env) {
+        let mut log: Vec<Val> = env.storage().instance().get(&PKey::Log).unwrap_or(Vec::new(&env));
+        log.push_back((symbol_short!("ping"), 0u32).into_val(&env));
+        env.storage().instance().set(&PKey::Log, &log);
+    }
+
     /// records the call, then traps
     pub fn boom(env: Env, tag: u32) {
         let mut log: Vec<Val> = env.storage().instance().get(&PKey::Log).unwrap_or(Vec::new(&env));
